@@ -3,7 +3,7 @@ import HeimdallModel.Spec.Crash
 # Lemmas about the loaders model (property C19)
 
 Core Lean only. Structure: outcomes; termination of the chain walk; key stores; the three loaders; trust stores;
-the rule factory over untyped values; background loops; the process.
+the rule factory over untyped values; background loops; the process; the credentials file of the redis cache.
 -/
 namespace Heimdall.Loaders
 
@@ -1031,5 +1031,225 @@ theorem confused_scopes_panics (g : Guards) (h1 : g.scopeTypes = false)
   simp [loadRuleSet, confusedScopes, ruleSet, decodeRule, decodeExecute, decodeOnError, loadRules, createRules,
     createRule, execPipeline, execStep, lookup, create, reference, instantiate, withConfig, decodeScopes, scopeValues,
     env, h1, h2, bind, Except.bind, pure, Except.pure]
+
+/-! ## the credentials file of the redis cache -/
+
+theorem loadCreds_returns (byValue : Bool) (d : CredDoc) : (loadCreds byValue d).returns = true := by
+  cases d with
+  | map fs =>
+    simp only [loadCreds]
+    cases credFields fs [] ⟨"", ""⟩ <;> rfl
+  | _ => rfl
+
+/-- decoding into a value: whatever is accepted is a pair of strings, never "nothing" -/
+theorem loadCreds_value_some (d : CredDoc) (s : Option Creds) (h : loadCreds true d = .ok s) : s.isSome = true := by
+  cases d with
+  | map fs =>
+    simp only [loadCreds] at h
+    cases hf : credFields fs [] ⟨"", ""⟩ with
+    | error r => simp [hf] at h
+    | ok c => simp [hf] at h; subst h; rfl
+  | null => simp [loadCreds] at h; subst h; rfl
+  | _ => simp [loadCreds] at h
+
+/-- the two ways of decoding differ on the null document only -/
+theorem loadCreds_pointer (d : CredDoc) (hd : d ≠ .null) : loadCreds false d = loadCreds true d := by
+  cases d <;> first | rfl | exact absurd rfl hd
+
+theorem reloadCreds_state (byValue : Bool) (st : Option Creds) (d : CredDoc) :
+    (reloadCreds byValue st d).2 = orKeep (credsLoads byValue d) st := by
+  simp only [reloadCreds, credsLoads]
+  cases loadCreds byValue d <;> rfl
+
+theorem reloadCreds_outcome_returns (byValue : Bool) (st : Option Creds) (d : CredDoc) :
+    (reloadCreds byValue st d).1.returns = true := by
+  have := loadCreds_returns byValue d
+  simp only [reloadCreds]
+  cases h : loadCreds byValue d <;> simp_all
+
+theorem credsAfter_eq_lastGood (byValue : Bool) (st : Option Creds) (ds : List CredDoc) :
+    credsAfter byValue st ds = lastGood (credsLoads byValue) st ds := by
+  induction ds generalizing st with
+  | nil => rfl
+  | cons d ds ih =>
+    simp only [credsAfter, lastGood, List.foldl_cons] at ih ⊢
+    rw [reloadCreds_state]
+    exact ih _
+
+/-- decoding into a value: starting from credentials, every history of contents ends in credentials -/
+theorem credsAfter_value_some (st : Option Creds) (hst : st.isSome = true) (ds : List CredDoc) :
+    (credsAfter true st ds).isSome = true := by
+  induction ds generalizing st with
+  | nil => exact hst
+  | cons d ds ih =>
+    simp only [credsAfter, List.foldl_cons]
+    apply ih
+    simp only [reloadCreds]
+    cases h : loadCreds true d with
+    | ok s => exact loadCreds_value_some d s h
+    | _ => exact hst
+
+theorem credFilesOf_cons (e : CredsEvent) (es : List CredsEvent) :
+    credFilesOf (e :: es) = credFilesOf [e] ++ credFilesOf es := by
+  cases e <;> simp [credFilesOf]
+
+theorem credsStep_value (watcherRecovers : Bool) (p : CredsProc) (e : CredsEvent) (ha : p.alive = true)
+    (hc : p.creds.isSome = true) :
+    (credsStep true watcherRecovers p e).alive = true ∧ (credsStep true watcherRecovers p e).creds.isSome = true ∧
+      (credsStep true watcherRecovers p e).creds = lastGood (credsLoads true) p.creds (credFilesOf [e]) := by
+  cases e with
+  | connect =>
+    cases hp : p.creds with
+    | none => simp [hp] at hc
+    | some c => simp [credsStep, ha, hp, credsGet, credFilesOf, lastGood]
+  | file d =>
+    have hs := credsAfter_value_some p.creds hc [d]
+    have hl := credsAfter_eq_lastGood true p.creds [d]
+    simp only [credsAfter, List.foldl_cons, List.foldl_nil] at hs hl
+    have hr := reloadCreds_outcome_returns true p.creds d
+    simp only [credsStep, ha, Bool.not_true, Bool.false_eq_true, if_false, credFilesOf]
+    refine ⟨?_, hs, hl⟩
+    generalize (reloadCreds true p.creds d).1 = o at hr
+    cases o <;> simp_all [survives]
+
+theorem credsSteps_value (watcherRecovers : Bool) :
+    ∀ (es : List CredsEvent) (p : CredsProc), p.alive = true → p.creds.isSome = true →
+      (credsSteps true watcherRecovers p es).alive = true ∧
+      (credsSteps true watcherRecovers p es).creds.isSome = true ∧
+      (credsSteps true watcherRecovers p es).creds = lastGood (credsLoads true) p.creds (credFilesOf es) := by
+  intro es
+  induction es with
+  | nil => intro p ha hc; exact ⟨ha, hc, rfl⟩
+  | cons e es ih =>
+    intro p ha hc
+    obtain ⟨h1, h2, h3⟩ := credsStep_value watcherRecovers p e ha hc
+    obtain ⟨i1, i2, i3⟩ := ih _ h1 h2
+    simp only [credsSteps, List.foldl_cons] at i1 i2 i3 ⊢
+    refine ⟨i1, i2, ?_⟩
+    rw [i3, h3, credFilesOf_cons e es, lastGood_append]
+
+/-! ### the decoder accepts exactly the files that mean credentials -/
+
+/-- what one accepted entry does to the credentials decoded so far -/
+def credUpd (c : Creds) (k : String) (v : CredVal) : Creds :=
+  match v with
+  | .scalar s => if k == "username" then { c with user := s } else if k == "password" then { c with pass := s } else c
+  | _ => c
+
+theorem credField_spec (c : Creds) (k : String) (v : CredVal) :
+    credField c k v =
+      if credKeyOk k = true ∧ credValOk v = true then .ok (credUpd c k v) else .error .decodeError := by
+  unfold credField credKeyOk credUpd
+  by_cases h1 : (k == "username") = true
+  · cases v <;> simp [h1, credValOk]
+  · by_cases h2 : (k == "password") = true
+    · cases v <;> simp [h1, h2, credValOk]
+    · simp [h1, h2]
+
+theorem fieldTextD_absent (fs : List (String × CredVal)) (k d : String) (h : k ∉ fs.map (·.1)) :
+    fieldTextD fs k d = d := by
+  have : fs.find? (·.1 == k) = none := by
+    rw [List.find?_eq_none]
+    intro f hf hk
+    exact h (List.mem_map.mpr ⟨f, hf, by simpa using hk⟩)
+  simp [fieldTextD, this]
+
+theorem fieldTextD_cons_ne (k key d : String) (v : CredVal) (rest : List (String × CredVal)) (h : k ≠ key) :
+    fieldTextD ((k, v) :: rest) key d = fieldTextD rest key d := by
+  have : ((k == key) = false) := by simpa using h
+  simp [fieldTextD, this]
+
+theorem credUpd_user_ne (c : Creds) (k : String) (v : CredVal) (h : k ≠ "username") : (credUpd c k v).user = c.user := by
+  have : ((k == "username") = false) := by simpa using h
+  cases v <;> simp [credUpd, this]
+  split <;> rfl
+
+theorem credUpd_pass_ne (c : Creds) (k : String) (v : CredVal) (h : k ≠ "password") : (credUpd c k v).pass = c.pass := by
+  have : ((k == "password") = false) := by simpa using h
+  cases v <;> simp [credUpd, this]
+  split <;> rfl
+
+theorem fieldTextD_cons_user (c : Creds) (k : String) (v : CredVal) (rest : List (String × CredVal))
+    (h : k ∉ rest.map (·.1)) :
+    fieldTextD ((k, v) :: rest) "username" c.user = fieldTextD rest "username" (credUpd c k v).user := by
+  by_cases hk : k = "username"
+  · subst hk
+    rw [fieldTextD_absent rest "username" _ h]
+    cases v <;> simp [fieldTextD, credUpd]
+  · rw [fieldTextD_cons_ne k "username" _ v rest hk, credUpd_user_ne c k v hk]
+
+theorem fieldTextD_cons_pass (c : Creds) (k : String) (v : CredVal) (rest : List (String × CredVal))
+    (h : k ∉ rest.map (·.1)) :
+    fieldTextD ((k, v) :: rest) "password" c.pass = fieldTextD rest "password" (credUpd c k v).pass := by
+  by_cases hk : k = "password"
+  · subst hk
+    rw [fieldTextD_absent rest "password" _ h]
+    cases v <;> simp [fieldTextD, credUpd]
+  · rw [fieldTextD_cons_ne k "password" _ v rest hk, credUpd_pass_ne c k v hk]
+
+theorem credFields_spec : ∀ (fs : List (String × CredVal)) (seen : List String) (c : Creds),
+    credFields fs seen c =
+      if (∀ f ∈ fs, credKeyOk f.1 = true ∧ credValOk f.2 = true ∧ f.1 ∉ seen) ∧ (fs.map (·.1)).Nodup then
+        .ok ⟨fieldTextD fs "username" c.user, fieldTextD fs "password" c.pass⟩
+      else .error .decodeError := by
+  intro fs
+  induction fs with
+  | nil => intro seen c; simp [credFields, fieldTextD]
+  | cons f rest ih =>
+    intro seen c
+    obtain ⟨k, v⟩ := f
+    unfold credFields
+    by_cases hs : seen.contains k = true
+    · have : k ∈ seen := by simpa using hs
+      simp [this]
+    · have hns : k ∉ seen := by simpa using hs
+      simp only [hs, Bool.false_eq_true, if_false]
+      rw [credField_spec]
+      by_cases hok : credKeyOk k = true ∧ credValOk v = true
+      · simp only [hok, and_self, if_true]
+        rw [ih (k :: seen) (credUpd c k v)]
+        by_cases hg : (∀ f ∈ rest, credKeyOk f.1 = true ∧ credValOk f.2 = true ∧ f.1 ∉ k :: seen) ∧
+            (rest.map (·.1)).Nodup
+        · have hk : k ∉ rest.map (·.1) := by
+            intro hm
+            obtain ⟨f, hf, hfk⟩ := List.mem_map.mp hm
+            exact (hg.1 f hf).2.2 (by simp [hfk])
+          rw [if_pos hg, if_pos, fieldTextD_cons_user c k v rest hk, fieldTextD_cons_pass c k v rest hk]
+          refine ⟨?_, List.nodup_cons.mpr ⟨hk, hg.2⟩⟩
+          intro f hf
+          rcases List.mem_cons.mp hf with h | h
+          · subst h; exact ⟨hok.1, hok.2, hns⟩
+          · exact ⟨(hg.1 f h).1, (hg.1 f h).2.1, fun hm => (hg.1 f h).2.2 (List.mem_cons_of_mem _ hm)⟩
+        · rw [if_neg hg, if_neg]
+          rintro ⟨h1, h2⟩
+          apply hg
+          simp only [List.map_cons, List.nodup_cons] at h2
+          refine ⟨fun f hf => ?_, h2.2⟩
+          have := h1 f (List.mem_cons_of_mem _ hf)
+          refine ⟨this.1, this.2.1, ?_⟩
+          intro hm
+          rcases List.mem_cons.mp hm with h | h
+          · exact h2.1 (List.mem_map.mpr ⟨f, hf, h⟩)
+          · exact this.2.2 h
+      · rw [if_neg hok, if_neg]
+        rintro ⟨h1, _⟩
+        have := h1 (k, v) (List.mem_cons_self ..)
+        exact hok ⟨this.1, this.2.1⟩
+
+/-- **MODEL = SPEC for the credentials file**: decoding into a value accepts exactly the documents that mean
+credentials, with exactly that meaning -/
+theorem loadCreds_eq_credsOf (d : CredDoc) : credsLoads true d = (credsOf d).map some := by
+  cases d with
+  | map fs =>
+    simp only [credsLoads, loadCreds, credsOf, credFields_spec]
+    by_cases h : (∀ f ∈ fs, credKeyOk f.1 = true ∧ credValOk f.2 = true) ∧ (fs.map (·.1)).Nodup
+    · rw [if_pos h, if_pos]
+      · rfl
+      · exact ⟨fun f hf => ⟨(h.1 f hf).1, (h.1 f hf).2, by simp⟩, h.2⟩
+    · rw [if_neg h, if_neg]
+      · rfl
+      · rintro ⟨h1, h2⟩
+        exact h ⟨fun f hf => ⟨(h1 f hf).1, (h1 f hf).2.1⟩, h2⟩
+  | _ => rfl
 
 end Heimdall.Loaders
